@@ -64,9 +64,22 @@ def run(ctx):
                 ev.append({"e": "pong", "g": g, "t": 5 * k + 1})
                 ev += [{"e": "tick", "g": 0, "t": 5 * k + 1 + 5 * j} for j in range(1, mr + 3)]
                 stim.append({"t": len(stim) + 1, "p": 4, "keepAlive": True, "maxRetries": mr, "events": ev})
+    # every ping answered at once, for more rounds than maxRetries - with a RST and (datagram peers) with an empty ACK
+    nallans = 0
+    for mr in (1, 2, 3):
+        for ack in (False, True):
+            ev = []
+            for j in range(1, mr + 4):
+                ev += [{"e": "tick", "g": 0, "t": 6 * j - 1}, {"e": "pong", "g": j, "t": 6 * j}]
+            stim.append({"t": len(stim) + 1, "p": 4, "keepAlive": True, "maxRetries": mr, "events": ev, "ackPongDirected": ack})
+            nallans += 1
+    ctx.cov["histories_every_ping_answered"] = nallans
     # every 5th history (thorough: every 2nd) and all directed ones also against a real udp server on a loopback socket
     for k, s_ in enumerate(stim):
         s_["srv"] = (k % (2 if thorough else 5) == 0) or k >= ngen
+        # in every third history with answered pings the datagram peer answers with an empty ACK instead of a RST
+        s_["ackPong"] = s_.pop("ackPongDirected", k % 3 == 1 and any(e["e"] == "pong" for e in s_["events"]))
+    ctx.cov["histories_with_pings_answered_by_ack"] = sum(1 for s_ in stim if s_["ackPong"])
     spath = os.path.join(ctx.work, "stimuli.ndjson")
     vf.write_ndjson(spath, stim)
     out = os.path.join(ctx.work, "traces.ndjson")
@@ -86,15 +99,21 @@ def run(ctx):
             continue
         groups = {}
         for t in ts:
-            # abstract shape: the event kinds between the first expiry and the close, with repetitions collapsed
-            ks = []
+            # what arrived between the first expiry and the close: other traffic ("recv") or the answer to a ping that had
+            # already been superseded by a later one ("latepong") - finding D12 can explain such a history -, only answers to
+            # the CURRENT ping ("pong"), or nothing ("none")
+            ks = set()
+            sent = 0
             for e, o in zip(t["events"], t["obs"]):
-                k = e["e"] if e["e"] != "pong" else "pong"
-                if not ks or ks[-1] != k:
-                    ks.append(k)
+                if e["e"] == "recv":
+                    ks.add("recv")
+                elif e["e"] == "pong":
+                    ks.add("latepong" if e["g"] < sent else "pong")
+                sent = o["pings"]
                 if o["closed"]:
                     break
-            groups.setdefault((t["mode"], t["keepAlive"], "recv" in ks or "pong" in ks), []).append(t)
+            kind = "recv" if "recv" in ks else ("latepong" if "latepong" in ks else ("pong" if "pong" in ks else "none"))
+            groups.setdefault((t["mode"], t["keepAlive"], kind), []).append(t)
         for (mode, ka, traffic), xs in sorted(groups.items()):
             t0 = min(xs, key=lambda t: len(t["events"]))
             vf.report(ctx, clause, {"mode": mode, "keepAlive": ka, "traffic_between_expiries": traffic},
